@@ -368,6 +368,12 @@ def run_drill(case, rec, rng):
             if rng.random() < 0.5:
                 h.add_data({"iv": {"from-to": np.c_[np.arange(3.0), np.arange(3.0) + 1.0], "values": np.arange(3.0) + 100 * i}}, property_group="itab")
                 names.append("iv")
+                if rng.random() < 0.6:
+                    # the interval log also sits in a second table of the hole (data in several property groups)
+                    second = h.find_or_create_property_group(name="second", property_group_type="Interval table")
+                    second.add_properties([h.get_data("FROM")[0], h.get_data("TO")[0], h.get_data("iv")[0]])
+                    second = None
+                    rec.see("hole-data-in-several-groups")
             if rng.random() < 0.6:
                 # a value for the whole hole: data in no property group at all
                 h.add_data({"note": {"values": np.r_[7.0 + i], "association": "OBJECT"}})
